@@ -1,23 +1,68 @@
 package zzverifc20
 
+// C20 support: the differential comparison used by every generated harness (zz_verif_c20_gen.go is
+// produced by engine/cmd/c20gen from /repo's current protobuf code on every run).
+
 import (
 	"bytes"
-	"fmt"
 
 	"google.golang.org/protobuf/proto"
-
-	api "mods.irisnet.org/api/irismod/coinswap"
-	"mods.irisnet.org/modules/coinswap/types"
 )
 
-func VerifC20_Probe() {
-	deadline, buy := verifInt64("deadline"), verifBool("buy")
-	g := &types.MsgSwapOrder{Deadline: deadline, IsBuyOrder: buy}
-	p := &api.MsgSwapOrder{Deadline: deadline, IsBuyOrder: buy}
-	b1, err1 := g.Marshal()
-	b2, err2 := proto.MarshalOptions{AllowPartial: true}.Marshal(p)
-	verifAssert(err1 == nil && err2 == nil, "both families marshal")
-	verifPrint(fmt.Sprintf("len1=%d len2=%d", len(b1), len(b2)))
-	verifAssert(len(b1) == len(b2), "same length")
-	verifAssert(bytes.Equal(b1, b2), "same bytes")
+type c20Gogo interface {
+	Marshal() ([]byte, error)
+	Unmarshal([]byte) error
 }
+
+type c20Pulsar interface{ proto.Message }
+
+type c20Texter interface{ Marshal() ([]byte, error) }
+
+// c20Text: the protobuf string form of a custom scalar (math.Int, math.LegacyDec)
+func c20Text(v c20Texter) string {
+	b, err := v.Marshal()
+	if err != nil {
+		verifFail("custom scalar does not marshal")
+	}
+	return string(b)
+}
+
+func c20PMarshal(m proto.Message) ([]byte, error) {
+	return proto.MarshalOptions{AllowPartial: true}.Marshal(m)
+}
+
+func c20PUnmarshal(b []byte, m proto.Message) error {
+	return proto.UnmarshalOptions{AllowPartial: true, Merge: true}.Unmarshal(b, m)
+}
+
+// c20Compare: the same value built in both families encodes to the same bytes; the bytes of either
+// decode in the other and re-encode to the same bytes.
+func c20Compare(gv c20Gogo, pv c20Pulsar, newG func() c20Gogo, newP func() c20Pulsar) {
+	b1, err1 := gv.Marshal()
+	b2, err2 := c20PMarshal(pv)
+	verifAssert(err1 == nil && err2 == nil, "both families encode the value")
+	verifCover("compared")
+	verifAssert(len(b1) == len(b2), "both families produce encodings of the same length")
+	verifAssert(bytes.Equal(b1, b2), "both families produce the same bytes")
+	// api bytes -> modules family -> bytes
+	g2 := newG()
+	verifAssert(g2.Unmarshal(b2) == nil, "the modules family decodes the api family's bytes")
+	b3, err3 := g2.Marshal()
+	verifAssert(err3 == nil && bytes.Equal(b3, b2), "decoding the api bytes in the modules family and re-encoding gives the same bytes")
+	// modules bytes -> api family -> bytes
+	p2 := newP()
+	verifAssert(c20PUnmarshal(b1, p2) == nil, "the api family decodes the modules family's bytes")
+	b4, err4 := c20PMarshal(p2)
+	verifAssert(err4 == nil && bytes.Equal(b4, b1), "decoding the modules bytes in the api family and re-encoding gives the same bytes")
+}
+
+// c20ReportMismatch: a message whose fields cannot be mirrored across the two families (the generator could
+// not build the same value in both).  The one listed case: proto/irismod/coinswap/coinswap.proto declares
+// Params.fee as cosmos.base.v1beta1.Coin with the gogoproto customtype LegacyDec, so the modules family
+// encodes decimal text where the api family expects a nested Coin message.
+func c20ReportMismatch(m string) {
+	known := len(m) > 0 && (c20Has(m, "coinswap.Params.Fee:") || c20Has(m, ".Params.Fee:") && c20Has(m, "coinswap."))
+	verifAssertKnown(false, "every field has the same protobuf type in both families: "+m, "C20-coinswap-fee-type", known)
+}
+
+func c20Has(s, sub string) bool { return bytes.Contains([]byte(s), []byte(sub)) }
